@@ -197,7 +197,11 @@ func (r *renderer) term(v ssa.Value) string {
 		}
 		r.phis[x] = true
 		set := map[string]bool{}
-		for _, e := range x.Edges {
+		dead := DeadBlocks(x.Parent())
+		for i, e := range x.Edges {
+			if i < len(x.Block().Preds) && dead[x.Block().Preds[i]] {
+				continue // edge from a block only reachable through a constant-false branch
+			}
 			set[r.term(e)] = true
 		}
 		delete(r.phis, x)
@@ -481,6 +485,10 @@ const (
 type Atom struct {
 	Kind string
 	L    Lin
+	// NonNeg: the atom compares a single term that cannot be negative (an
+	// unsigned integer, len or cap) with 0 or 1; then x > 0 and x != 0, x <= 0
+	// and x == 0 are the same fact.
+	NonNeg bool
 }
 
 func (a Atom) String() string {
@@ -516,15 +524,15 @@ func (a Atom) Negate() Atom {
 	case LE:
 		n := a.L.scale(-1)
 		n.K++
-		return Atom{LE, n}
+		return Atom{Kind: LE, L: n, NonNeg: a.NonNeg}
 	case EQ:
-		return Atom{NE, a.L}
+		return Atom{Kind: NE, L: a.L, NonNeg: a.NonNeg}
 	case NE:
-		return Atom{EQ, a.L}
+		return Atom{Kind: EQ, L: a.L, NonNeg: a.NonNeg}
 	case TRUE:
-		return Atom{FALS, a.L}
+		return Atom{Kind: FALS, L: a.L}
 	default:
-		return Atom{TRUE, a.L}
+		return Atom{Kind: TRUE, L: a.L}
 	}
 }
 
@@ -543,11 +551,16 @@ func (r *renderer) cond(v ssa.Value) Atom {
 		}
 	case *ssa.BinOp:
 		ordered := isIntegral(x.X.Type())
+		nn := nonNegValue(x.X) || nonNegValue(x.Y)
 		switch x.Op {
 		case token.EQL:
-			return Atom{EQ, r.cmpLin(x.X).add(r.cmpLin(x.Y), -1)}.norm()
+			a := Atom{Kind: EQ, L: r.cmpLin(x.X).add(r.cmpLin(x.Y), -1)}.norm()
+			a.NonNeg = nn
+			return a
 		case token.NEQ:
-			return Atom{NE, r.cmpLin(x.X).add(r.cmpLin(x.Y), -1)}.norm()
+			a := Atom{Kind: NE, L: r.cmpLin(x.X).add(r.cmpLin(x.Y), -1)}.norm()
+			a.NonNeg = nn
+			return a
 		}
 		if ordered {
 			a, b := r.lin(x.X, 0), r.lin(x.Y, 0)
@@ -555,22 +568,49 @@ func (r *renderer) cond(v ssa.Value) Atom {
 			case token.LSS: // a < b  <=> a-b+1 <= 0
 				l := a.add(b, -1)
 				l.K++
-				return Atom{LE, l}
+				return Atom{Kind: LE, L: l, NonNeg: nn}
 			case token.LEQ:
-				return Atom{LE, a.add(b, -1)}
+				return Atom{Kind: LE, L: a.add(b, -1), NonNeg: nn}
 			case token.GTR: // a > b <=> b-a+1<=0
 				l := b.add(a, -1)
 				l.K++
-				return Atom{LE, l}
+				return Atom{Kind: LE, L: l, NonNeg: nn}
 			case token.GEQ:
-				return Atom{LE, b.add(a, -1)}
+				return Atom{Kind: LE, L: b.add(a, -1), NonNeg: nn}
 			}
 		}
 	case *ssa.Const:
 		// constant condition
-		return Atom{TRUE, Lin{Coef: map[string]int64{constString(x): 1}}}
+		return Atom{Kind: TRUE, L: Lin{Coef: map[string]int64{constString(x): 1}}}
 	}
-	return Atom{TRUE, Lin{Coef: map[string]int64{r.term(v): 1}}}
+	return Atom{Kind: TRUE, L: Lin{Coef: map[string]int64{r.term(v): 1}}}
+}
+
+// nonNegValue: v can never be negative (unsigned integer type, len or cap).
+func nonNegValue(v ssa.Value) bool {
+	for {
+		if c, ok := v.(*ssa.Convert); ok && isIntegral(c.X.Type()) && isIntegral(c.Type()) {
+			// a widening conversion of a non-negative value stays non-negative
+			if b, ok := c.X.Type().Underlying().(*types.Basic); ok && b.Info()&types.IsUnsigned != 0 {
+				return true
+			}
+			v = c.X
+			continue
+		}
+		break
+	}
+	if _, isConst := v.(*ssa.Const); isConst {
+		return false
+	}
+	if b, ok := v.Type().Underlying().(*types.Basic); ok && b.Info()&types.IsUnsigned != 0 {
+		return true
+	}
+	if call, ok := v.(*ssa.Call); ok {
+		if bi, ok := call.Call.Value.(*ssa.Builtin); ok && (bi.Name() == "len" || bi.Name() == "cap") {
+			return true
+		}
+	}
+	return false
 }
 
 // cmpLin: operands of ==/!= — integers linearised, others as single terms
@@ -650,21 +690,21 @@ func (p *Prog) ParseAtom(s string) (Atom, error) {
 				}
 				switch op {
 				case "==":
-					return Atom{EQ, l.add(r, -1)}.norm(), nil
+					return Atom{Kind: EQ, L: l.add(r, -1)}.norm(), nil
 				case "!=":
-					return Atom{NE, l.add(r, -1)}.norm(), nil
+					return Atom{Kind: NE, L: l.add(r, -1)}.norm(), nil
 				case "<":
 					x := l.add(r, -1)
 					x.K++
-					return Atom{LE, x}, nil
+					return Atom{Kind: LE, L: x}, nil
 				case "<=":
-					return Atom{LE, l.add(r, -1)}, nil
+					return Atom{Kind: LE, L: l.add(r, -1)}, nil
 				case ">":
 					x := r.add(l, -1)
 					x.K++
-					return Atom{LE, x}, nil
+					return Atom{Kind: LE, L: x}, nil
 				case ">=":
-					return Atom{LE, r.add(l, -1)}, nil
+					return Atom{Kind: LE, L: r.add(l, -1)}, nil
 				}
 			}
 		}
@@ -674,7 +714,7 @@ func (p *Prog) ParseAtom(s string) (Atom, error) {
 		neg = !neg
 		s = strings.TrimSpace(s[1:])
 	}
-	a := Atom{TRUE, Lin{Coef: map[string]int64{stripSpaces(s): 1}}}
+	a := Atom{Kind: TRUE, L: Lin{Coef: map[string]int64{stripSpaces(s): 1}}}
 	if neg {
 		a = a.Negate()
 	}
@@ -779,10 +819,38 @@ func (p *Prog) parseLin(s string) (Lin, error) {
 	return out, nil
 }
 
-// SameAtom reports exact canonical equality.
+// SameAtom reports exact canonical equality (modulo the non-negative equivalences).
 func SameAtom(a, b Atom) bool {
 	a, b = a.norm(), b.norm()
-	return a.Kind == b.Kind && a.L.String() == b.L.String()
+	if a.Kind == b.Kind && a.L.String() == b.L.String() {
+		return true
+	}
+	if a.NonNeg || b.NonNeg {
+		return nonNegForm(a) != "" && nonNegForm(a) == nonNegForm(b)
+	}
+	return false
+}
+
+// nonNegForm maps "t != 0" / "t >= 1" to "pos:t" and "t == 0" / "t <= 0" to "zero:t".
+func nonNegForm(a Atom) string {
+	if len(a.L.Coef) != 1 {
+		return ""
+	}
+	var t string
+	var c int64
+	for t, c = range a.L.Coef {
+	}
+	switch {
+	case a.Kind == NE && a.L.K == 0:
+		return "pos:" + t
+	case a.Kind == LE && c == -1 && a.L.K == 1:
+		return "pos:" + t
+	case a.Kind == EQ && a.L.K == 0:
+		return "zero:" + t
+	case a.Kind == LE && c == 1 && a.L.K == 0:
+		return "zero:" + t
+	}
+	return ""
 }
 
 // Implies reports whether code atom a implies spec atom b (same term vector).
